@@ -315,6 +315,17 @@ func c14History(c *ev.Ctx) {
 		if hasColl && otherLive {
 			ckey = "collision:"
 		}
+		if ckey == "" && (found != live || has != live) {
+			// a chance collision: the 32-bit hash of this name equals that of a live name
+			h := structures.VerifJenkinsHash(name)
+			for n := range model {
+				if n != name && structures.VerifJenkinsHash(n) == h {
+					other, ckey = n, "collision:"
+					c.Count("chance_hash_collisions_met", 1)
+					break
+				}
+			}
+		}
 		if found != live || has != live {
 			if ckey != "" {
 				fail("collision:search:presence", fmt.Sprintf("name %q live=%v but SearchRecord found=%v HasKey=%v (partner %q with the same hash is live)", name, live, found, has, other))
